@@ -223,9 +223,8 @@ pub fn specs(tier: Tier) -> Vec<GenSpec> {
 pub fn run(tier: Tier) -> i32 {
     let info = RunInfo::new("C01", tier);
     let specs = specs(tier);
-    let counter = std::sync::atomic::AtomicU64::new(0);
     let mut st = par_enumerate(&specs, |_spec, net, st| {
-        let idx = counter.fetch_add(1, std::sync::atomic::Ordering::Relaxed);
+        let idx = net.hash_idx();
         for_net(net, tier, idx, st);
         if net.n == 3 && net.m() == 3 {
             st.sample(1, || json!({"net": net, "note": "every algorithm x direction x orientation x every ordered pair of distinct edges is run on it"}));
